@@ -150,7 +150,7 @@ var errConnBroken = errors.New("scripted connection failure")
 
 func (w *faultWriter) Write(p []byte) (int, error) {
 	w.mu.Lock()
-	fail := w.failAt >= 0 && w.n >= w.failAt
+	idx := w.n
 	w.n++
 	for w.hold {
 		if w.wake == nil {
@@ -163,6 +163,8 @@ func (w *faultWriter) Write(p []byte) (int, error) {
 		w.mu.Lock()
 		w.blocked--
 	}
+	// decided when the write goes through: a write that was held while the connection broke fails
+	fail := w.failAt >= 0 && idx >= w.failAt
 	w.mu.Unlock()
 	if fail {
 		return 0, errConnBroken
@@ -601,6 +603,22 @@ var helpers = []*helper{
 		}},
 	{name: "muc.SetConfig", templates: []string{``},
 		call: func(ctx context.Context, s *xmpp.Session) { _ = muc.SetConfigIQ(ctx, iqTo, nil, s) }},
+	// round trip: the form the peer sent is handed back by the next request helper (the value
+	// decoded from one reply is the argument of the next call)
+	{name: "muc.GetConfig>SetConfig", templates: []string{
+		`<query xmlns="http://jabber.org/protocol/muc#owner"><x xmlns="jabber:x:data" type="form"><title>t</title><instructions>one</instructions><instructions/><instructions>two&#13;&#10;three</instructions>` +
+			`<field var="FORM_TYPE" type="hidden"><value>http://jabber.org/protocol/muc#roomconfig</value></field>` +
+			`<field var="muc#roomconfig_roomdesc" type="text-multi"><value>a</value><value/><value>b&#13;&#10;c</value></field>` +
+			`<field var="muc#roomconfig_roomadmins" type="jid-multi"><value>a@b</value><value>@@</value></field>` +
+			`<field var="muc#roomconfig_publicroom" type="boolean"><required/><value>maybe</value></field>` +
+			`<field var="muc#roomconfig_whois" type="list-single"><value>anyone</value><option label="x"><value>anyone</value></option></field>` +
+			`<field type="fixed"><value>note</value></field></x></query>`},
+		call: func(ctx context.Context, s *xmpp.Session) {
+			f, err := muc.GetConfigIQ(ctx, iqTo, s)
+			if err == nil {
+				_ = muc.SetConfigIQ(ctx, iqTo, f, s)
+			}
+		}},
 	{name: "history.Fetch", templates: []string{`<fin xmlns="urn:xmpp:mam:2" complete="true"><set xmlns="http://jabber.org/protocol/rsm"><first index="0">a</first><last>b</last><count>2</count></set></fin>`},
 		call: func(ctx context.Context, s *xmpp.Session) {
 			_, _ = history.FetchIQ(ctx, history.Query{ID: "q"}, iqTo, s)
@@ -946,6 +964,19 @@ func (c *ctx) replay(lines []string) error {
 				chunks = append(chunks, string(b))
 			}
 			c.nego(negoWitness{role: f[2], mechs: f[3], chunks: chunks}, "replay")
+		case "muchand":
+			// the three cases are cheap: replaying one runs the whole (deterministic) domain
+			c.mucHandover()
+		case "formsubmit":
+			if len(f) != 4 {
+				return fmt.Errorf("bad replay line %q", l)
+			}
+			ins, err1 := decList(f[2])
+			vals, err2 := decList(f[3])
+			if err1 != nil || err2 != nil {
+				return fmt.Errorf("bad replay line %q", l)
+			}
+			c.formSubmit(ins, vals, "replay")
 		case "scen":
 			if len(f) != 4 {
 				return fmt.Errorf("bad replay line %q", l)
